@@ -64,10 +64,18 @@ var bigPayload = strings.Repeat("0123456789abcdef", 70000/16)
 // writer split what it hands on)
 var hugePayload = strings.Repeat("0123456789abcdef", 700001/16+1)[:700001]
 
+// gigaPayload: 64 MiB handed over 40 times passes 2^31 bytes in one writer (the wrapped writer of
+// the harness only counts, so nothing of that size is ever copied)
+var gigaPayload = strings.Repeat("0123456789abcdef", (64<<20)/16)
+
+var gigaBytes = []byte(gigaPayload)
+
 var maxCalls = 3
 
 // manyCalls > 0: a fixed long sequence of full writes (wide but shallow scenario)
 var manyCalls = 0
+
+const gigaCalls = 41 // this many calls mean: with the 64 MiB payload
 
 func bodyMany(n int) func(c *vsched.Ctx) {
 	inner := body(true, true)
@@ -87,6 +95,9 @@ func body(withConsumer, withClose bool) func(c *vsched.Ctx) {
 		}
 		sw := vsched.Choose(2, "underlying-has-WriteString")
 		payload := smallPayload
+		if manyCalls == gigaCalls {
+			payload = gigaPayload
+		}
 		if manyCalls == 0 {
 			switch vsched.Choose(3, "payload-size") {
 			case 1:
@@ -132,7 +143,9 @@ func body(withConsumer, withClose bool) func(c *vsched.Ctx) {
 		writer = vsched.GoNamed("writer", func() {
 			for i := 0; i < ncalls; i++ {
 				vsched.Mark("inwrite", 1)
-				if kinds[i] == 0 {
+				if kinds[i] == 0 && many == gigaCalls {
+					pw.Write(gigaBytes) // no copy per call
+				} else if kinds[i] == 0 {
 					pw.Write([]byte(payload))
 				} else {
 					pw.WriteString(payload)
@@ -222,6 +235,10 @@ func main() {
 			Quick: P(0, -1), Body: body(true, true), MinOutcomes: 50, NoSleep: true},
 		{Name: "many-writes-late-consumer", Props: []string{"C19"}, About: "40 full writes, consumer draining at its own pace, Close: wide but shallow (delay-bounded) - reaches thresholds a 3-call scenario cannot",
 			Quick: sdrive.Plan{Delay: true, Bounds: []int{0, 1, 2}}, Thorough: sdrive.Plan{Delay: true, Bounds: []int{0, 1, 2, 3}}, Body: bodyMany(40), MinOutcomes: 2, NoSleep: true},
+		{Name: "giga-writes", Props: []string{"C19"}, About: "41 full writes of 64 MiB each (2.7 GB through one writer: totals beyond 2^31), consumer, Close",
+			Quick: sdrive.Plan{Delay: true, Bounds: []int{0, 1}}, Thorough: sdrive.Plan{Delay: true, Bounds: []int{0, 1, 2}}, Body: bodyMany(gigaCalls), MinOutcomes: 1, NoSleep: true},
+		{Name: "late-consumer-timers-live", Props: []string{"C19"}, About: "as writer+consumer+close with every timer allowed to fire at any moment: a Close that gives up waiting for the receiver would lose the final value",
+			Quick: P(0, 1), Thorough: P(0, 1, 2), TimersLive: true, Body: body(true, true), MinOutcomes: 50, NoSleep: true},
 		{Name: "writer-alone", Props: []string{"C19"}, About: "nobody ever receives: no Write may block",
 			Quick: P(-1), Body: body(false, false), MinOutcomes: 50, NoSleep: true},
 		{Name: "writer-alone+close", Props: []string{"C19"}, About: "nobody receives and Close is called: only Close may block",
